@@ -28,8 +28,10 @@ pub mod obl_reader;
 pub mod obl_bitreader;
 #[cfg(all(kani, feature = "m_c08"))]
 pub mod obl_c08;
-#[cfg(all(kani, any(feature = "m_c10", feature = "m_c16")))]
+#[cfg(all(kani, any(feature = "m_c10", feature = "m_c16", feature = "m_c10x")))]
 pub mod obl_c10;
+#[cfg(all(kani, feature = "m_c10x"))]
+pub mod obl_c10x;
 #[cfg(all(kani, feature = "m_c11"))]
 pub mod obl_c11;
 #[cfg(all(kani, feature = "m_c12"))]
